@@ -87,7 +87,7 @@ func freeJobs(repo string, maxSize int64) []freeJob {
 }
 
 func runFree(j freeJob) string {
-	s, err := fqrun.NewSession(map[string][]byte{"in.bin": j.data})
+	s, err := fqrun.NewCLISession(map[string][]byte{"in.bin": j.data})
 	if err != nil {
 		return "SESSION: " + err.Error()
 	}
